@@ -311,6 +311,9 @@ func cmdReplay(args []string) int {
 	job := &Job{ID: 1, Prop: rf.Property, Profile: rf.Profile, Seed: rf.Seed, Replay: rf.Tape, IsRep: true, WantLog: true, Knobs: rf.Knobs}
 	if isRace {
 		job.RaceFiles = anchorFiles(verifDir(), rf.Property)
+		if sp := specs[rf.Property]; sp != nil && len(sp.RaceFiles) > 0 {
+			job.RaceFiles = sp.RaceFiles
+		}
 	}
 	res := RunOne(b.Worker, job, "1")
 	for _, l := range res.Log {
